@@ -19,5 +19,5 @@ fn describe(rep: &mut Report) {
     rep.rule = "same exploration as C05; oracle: the built transaction is completed with exactly the witnesses the ledger requires (witsVKeyNeeded computed by the harness from the parsed body and the UTxO table; one bootstrap witness per Byron address) and fee >= a*size + b + script fee + tiered reference-script fee; requested minimum / exact fees honoured; a fee that build_tx refuses after a successful balancing call is judged on build_tx_unsafe().".into();
     rep.assume("native-script signers: every key named by the scripts in use (upper bound shared by ledger size and builder)");
     rep.trusted_base = vec!["notes/ledger_rules.md §2, §4".into(), "harness/src/ledger.rs (min_fee, signed_bytes)".into()];
-    rep.required_hits = vec!["fee-sufficient", "bootstrap-witness-needed", ">=3-signers", "exact-fee-request", "min-fee-request"];
+    rep.required_hits = vec!["fee-sufficient", "bootstrap-witness-needed", ">=3-signers", "exact-fee-request", "min-fee-request", "token-change-split-over->=2-outputs"];
 }
